@@ -10,7 +10,7 @@ import tempfile
 import numpy as np
 from hypothesis import strategies as st
 
-from .. import common, gen as G, expr as X
+from .. import common, gen as G, expr as X, loopvmap as LV
 from ..common import Violation
 from . import c01
 from ._base import standard_run, standard_worker
@@ -38,7 +38,7 @@ def corpus_case(draw, tier="quick"):
     entries = []
     while len(entries) < n:
         mode = draw(st.integers(0, 9))
-        B = [None, "numpy", "numpy.numpylike", None]
+        B = [None, "numpy", "numpy.numpylike", None, LV.NAME]
         if mode in (2, 4):
             # implicit output (the scalar-op default is chosen from a set of candidate expressions)
             c = draw(G.call_case(ops=G.FAMILY_OPS["elementwise"] + G.REDUCE + G.ARGFIND, quick=True, implicit=True, min_inputs=2, backends=B, flags={"full_inputs": draw(st.booleans())}))
